@@ -46,9 +46,8 @@ META = {
         "Q is the exact integer quarter-turn table; coordinates are compared with a tolerance "
         "of 64 ulp of (|reference| + |corner|) (the library evaluates ref + Q (p - ref) in "
         "floating point), values with 16 ulp of |v_a| + |v_b| (exact for integers)",
-        "reference points up to 1e3 edge lengths away (rule R7); with subregions present the "
-        "reference stays within a few edge lengths so that rounding of ref + Q(p - ref) "
-        "cannot push a subregion off the lattice by more than the region's own tolerance",
+        "reference points up to 1e3 edge lengths away (rule R7), with and without "
+        "subregions",
         "units/dims of subregions and the bc string after a rotation are not judged (the "
         "statement is silent)",
     ],
@@ -113,7 +112,7 @@ class Setup:
         centre = (spec.pmin + spec.pmax) / 2
         if r < 0.45:
             self.ref, self.ref_kind = None, "default"
-        elif r < 0.85 or self.boxes:
+        elif r < 0.85:
             self.ref = spec.pmin + rng.uniform(-2, 3, nd) * spec.edges
             self.ref_kind = "near"
         else:
